@@ -160,6 +160,8 @@ func (ch c11) Run(c *core.Ctx) {
 	envTLS := hs.Start(hs.Parse, wire.TLSConfig(hs.ServerTLS()))
 	envNone := hs.Start(hs.Parse)
 	envEmpty := hs.Start(hs.Parse, wire.TLSConfig(&tls.Config{}))
+	envTLSAuth := hs.Start(hs.Parse, wire.TLSConfig(hs.ServerTLS()), wire.SessionAuthStrategy(wire.ClearTextPassword(c03validator)))
+	defer envTLSAuth.Stop()
 	defer envTLS.Stop()
 	defer envNone.Stop()
 	defer envEmpty.Stop()
@@ -182,7 +184,11 @@ func (ch c11) Run(c *core.Ctx) {
 		case k == 6:
 			ch.noCert(c, core.Pick(rng, []*hs.Env{envNone, envEmpty}), s, cs)
 		default:
-			ch.odd(c, envTLS, s, rng, maxVer, cs)
+			if rng.Intn(3) == 0 {
+				ch.authInsideTLS(c, envTLSAuth, s, rng, maxVer, cs)
+			} else {
+				ch.odd(c, envTLS, s, rng, maxVer, cs)
+			}
 		}
 	}
 }
@@ -377,6 +383,47 @@ func (ch c11) noCert(c *core.Ctx, env *hs.Env, s c15session, cs map[string]any) 
 		}
 	}
 	cl.Finish()
+}
+
+// authInsideTLS: password authentication over the upgraded connection behaves as in plaintext
+// (accepted: session; rejected: ErrorResponse class 28 and close) and stays inside TLS.
+func (ch c11) authInsideTLS(c *core.Ctx, env *hs.Env, s c15session, rng *core.Rng, maxVer uint16, cs map[string]any) {
+	probe := &hs.Prog{Stmts: []*hs.Stmt{{ID: "probe", Cols: textCols(1), Ops: []hs.Op{{K: "row", Vals: []any{"tls-probe-value-" + s.User}}, {K: "complete", Tag: "SELECT 1"}}}}}
+	sess := &hs.Sess{Default: func(q string) *hs.Prog { return probe }}
+	t, reply, err := c11upgrade(env, sess, nil, false, maxVer)
+	if err != nil {
+		c.Violate("upgrade", "TLS upgrade failed", fmt.Sprintf("reply %q: %v", reply, err), cs)
+		return
+	}
+	good := rng.Bool()
+	c.Count("auth_inside_tls", 1)
+	c.Eval(fmt.Sprintf("auth-in-tls good=%v v%x", good, maxVer), true)
+	out, _ := t.step(pg.Startup([][2]string{{"user", s.User}}))
+	if replyKinds(out) != "R(3)" {
+		c.Violate("tls-differs", "password request inside TLS", replyKinds(out), cs)
+		return
+	}
+	pw := "wrong-" + s.User
+	if good {
+		pw = "pw"
+	}
+	out, closed := t.step(append(pg.Password(pw), pg.Query("after auth "+s.User)...))
+	k := collapse(pg.Types(mustMsgs(out)))
+	if good && (k != "RSZTDCZ" || closed) {
+		c.Violate("tls-differs", "accepted password inside TLS does not give a session", k, cs)
+		return
+	}
+	if !good {
+		ms := mustMsgs(out)
+		if !closed || len(ms) != 1 || ms[0].T != 'E' || !strings.HasPrefix(ms[0].Err['C'], "28") {
+			c.Violate("tls-differs", "rejected password inside TLS is not answered by ErrorResponse(28xxx) + close", fmt.Sprintf("closed=%v reply=%s", closed, replyKinds(out)), cs)
+			return
+		}
+	}
+	t.tc.Close()
+	t.conn.CloseWrite()
+	t.conn.WaitClosed()
+	ch.rawChecks(c, t, [][]byte{[]byte("tls-probe-value-" + s.User), []byte("invalid username")}, cs, "auth inside TLS")
 }
 
 // odd behaviours: repeated SSLRequest inside TLS, GSSENCRequest; only safety is judged.
